@@ -12,6 +12,7 @@ EXTRA = [
     "$[?@.a =~ /a.*/i]", "$[?@.a =~ /A/ms]", "$[?@.a =~ /a\\/b/]", "$[?@.a == 'it''s']" if False else "$[?@.a == 'it\\'s']", '$[?@.a == "say \\"hi\\""]', "$['say \"hi\"']", "$[?@.a == '6\"']",
     "$[?@.a == 'a\\\\']", "$['\\n']", "$['\\u00e9']", "$[0::-1]", "$[0:2:-1]", "$[::-1]", "$[1:]", "$[:1]", "$[::]", "$[0:0]", "$.a | $.b", "$.a & $.b | $.c1", "$[?@.a in [1, 'a', true, null]]",
     "$[?@.n == count(^[*])]", "$[?count(^[*]) == 1]", "$[?^[0].a == @.a]", "$.b[?@.a == ^[0].a]", "^[?@.a == count(^[*])]", "$[?@.a == 0.0000002]", "$[?@.a == 1.5e-7]", "$[?@.a == 123456789012345680.0]",
+    "$[?@.a in ['x\\u0001y', 'z']]", "$[?@.a in ['it\\'s', \"q\\\"\"]]", "$[?(@.a || @.b) && @.c1]", "$[?(@.a || @.b) && (@.c1 || @.a)]", "$[?@.c1 && (@.a || @.b)]", "$[?((@.a || @.b) && @.c1) || @.b]",
     "$[?@.a == undefined]", "$[?@.a == nil]", "$[?# == 'a']", "$[?@.a == _.x]", "$[~]", "$.a[~]", "$.~", "$..~", "$[?count(@.*) > 1 && match(@.a, 'a')]", "$[?length(value(@..a)) == 1]",
 ]
 
